@@ -218,6 +218,7 @@ Theorem routing_independent w x i j m a it jt :
 Proof.
   intros Hi Hj. unfold step, step_core. cbn [ev_base ev_ctx releasing]. rewrite Hi, Hj.
   destruct (matcher_panics (w_cfg w) (w_state w) m a) as [sp|]; [split; reflexivity|].
+  destruct (debug_panics (w_cfg w) (w_state w) m a) as [sd|]; [split; reflexivity|].
   destruct (call hinfo N haccepts hdebug (w_cfg w) (w_state w) m a) as [s' act].
   destruct act; cbn; split; reflexivity.
 Qed.
